@@ -438,6 +438,23 @@ def run(repo: Repo, chk: Check, thorough: bool = False) -> None:
             n_clock += 1
             ok, why = _clock_use(repo, f, c)
             chk.ob('R18.3', f'{f.qn} :: {norm(c)}', ok, why, repo.loc(f.mod, c))
+    # the time ZONE of the machine is an input nobody listed: a timestamp (SOURCE_DATE_EPOCH) must be converted zone-independently
+    # (utcfromtimestamp, or fromtimestamp with an explicit tz); strftime of a naive local time differs between build hosts
+    n_ts = 0
+    for f in sorted(repo.funcs.values(), key=lambda f: f.qn):
+        if '.test' in f.mod.name or f.mod.name.startswith('pydoctor.sphinx_ext'):
+            continue
+        for c in calls_in(f, lambda c: call_name(c) in ('fromtimestamp', 'utcfromtimestamp', 'localtime', 'mktime')):
+            n_ts += 1
+            nm = call_name(c)
+            tz = len(c.args) >= 2 or any(k.arg == 'tz' for k in c.keywords)
+            okz = nm == 'utcfromtimestamp' or (nm == 'fromtimestamp' and tz)
+            chk.ob('R18.3', f'{f.qn} :: {norm(c.func)}(...) does not depend on the time zone of the host', okz,
+                   'UTC / explicit zone' if okz else
+                   f'`{norm(c)[:60]}` converts through the local time zone: with the same SOURCE_DATE_EPOCH the build time in every page footer differs between '
+                   'hosts whose TZ differs', repo.loc(f.mod, c))
+    if n_ts < 1:
+        raise AnalysisError('R18.3: no timestamp conversion found (driver.get_system converts SOURCE_DATE_EPOCH)')
     # docutils has a clock of its own: the `date` directive (usually `.. |today| date::`) formats the wall-clock time, and it ignores
     # SOURCE_DATE_EPOCH.  The reST parser must replace it (or hand it System.buildtime)
     rmod = repo.mod('pydoctor.epydoc.markup.restructuredtext')
@@ -450,7 +467,7 @@ def run(repo: Repo, chk: Check, thorough: bool = False) -> None:
            'replaced by a directive registered by pydoctor' if 'date' in regs else
            'docutils\' own `date` directive stays active: a docstring with `.. |generated| date:: %H:%M:%S` puts the current time into the page and the '
            'search index; --buildtime / SOURCE_DATE_EPOCH do not reach it, two otherwise identical runs differ', rmod.relpath)
-    chk.require('R18.3', 4)
+    chk.require('R18.3', 5)
     # buildtime is overridden before any page is built
     gs = repo.func('pydoctor.driver.get_system')
     writes = [n for n in gs.walk() if isinstance(n, ast.Assign) and any(isinstance(t, ast.Attribute) and t.attr == 'buildtime' for t in n.targets)]
